@@ -8,7 +8,7 @@ LEVEL = "exploration"
 TIERS = T.TIERS
 RULE = ("Same tokenizer workload as C01 with the recipes 'silence straddling a max_length cut at every offset "
         "0..max_silence on both sides', all four modes.  Oracle INV/C03 on the validity of the frames inside each "
-        "delivered token: longest invalid run (carried across a cut into the immediate continuation) <= "
+        "delivered token (and, through split() on synthesized audio, on the windows of every yielded region): longest invalid run (carried across a cut into the immediate continuation) <= "
         "max_continuous_silence (<= max(max_continuous_silence, init_max_silence) when init_min>1); >=1 valid frame; "
         "first frame valid unless continuation; with dropping on, last frame valid unless the token has max_length "
         "frames.  Non-trivial = >=1 token; distinct = distinct (string, tuple).")
@@ -51,8 +51,45 @@ def check_case(ctx, v, params, kind, delivery, origin):
         ctx.sample({"case": T.case_of(v, params, kind, delivery), "tokens": [(s, e) for _, s, e in tokens]})
 
 
+def split_level(ctx, n):
+    """the same invariants on the events split() yields (tokens = regions, frames = analysis windows)."""
+    import auditok
+
+    from .. import audiocommon as AC
+
+    rng = ctx.rng("split")
+    for _ in range(n):
+        case = AC.random_split_case(rng, max_windows=40, allow_partial=False)
+        built = AC.build_audio(case)
+        if built is None:
+            continue
+        data, verdicts = built
+        bps = case["width"] * case["channels"]
+        try:
+            regions = list(auditok.split(data, **AC.split_kwargs(case), **AC.audio_kwargs(case)))
+        except Exception as exc:
+            ctx.violation("exception:" + type(exc).__name__, {"case": AC.case_json(case), "exception": repr(exc)[:200]})
+            continue
+        tokens = []
+        for r in regions:
+            a = round(r.start * case["rate"]) // case["block"]
+            n_w = -(-len(bytes(r)) // (case["block"] * bps))
+            tokens.append((None, a, a + n_w - 1))
+        ctx.case(repr(("split", data, sorted(AC.case_json(case).items()))), bool(tokens))
+        ctx.count("split_level_cases")
+        ctx.count("split_level_regions", len(tokens))
+        if case["drop"] and case["strict"]:
+            ctx.count("split_level_cases_drop_and_strict")
+        for key, detail in inv.c03(verdicts, tokens, case["max_len"], case["max_sil"], case["drop"], 0, 0):
+            detail["case"] = AC.case_json(case)
+            detail["regions(first_window,last_window)"] = [(s, e) for _, s, e in tokens][:20]
+            ctx.violation("split:" + key, detail)
+            break
+
+
 def run_shard(ctx):
     conf = TIERS[ctx.tier]
+    split_level(ctx, 150 if ctx.tier == "quick" else 8000)
     for v, params, kind, delivery, origin in T.iter_cases(ctx, conf):
         check_case(ctx, v, params, kind, delivery, origin)
 
@@ -66,4 +103,4 @@ def inconclusive(merged, tier):
     c = merged["counters"]
     return [f"monitor never observed {k}" for k in
             ("tokens_observed", "tokens_with_inner_or_trailing_silence", "continuation_tokens",
-             "silence_run_straddling_a_cut", "drop_mode_tokens") if c.get(k, 0) == 0]
+             "silence_run_straddling_a_cut", "drop_mode_tokens", "split_level_regions", "split_level_cases_drop_and_strict") if c.get(k, 0) == 0]
